@@ -32,8 +32,14 @@ func baseSchema(d string) *Sch {
 		idT, intT, strT, txtT = hcl("integer"), hcl("int"), hcl("varchar", ai("size", 64)), hcl("text")
 		decT, timeT, boolT, blobT, jsonT = hcl("numeric", ai("precision", 10), ai("scale", 2)), hcl("datetime"), hcl("boolean"), hcl("blob"), hcl("json")
 	}
+	cs, co := "", ""
+	if d == "mysql" {
+		// the schema carries charset and collation; tables carry theirs only in the "table.charset…" features
+		// (an inspected MySQL table always has both, see feature table.charset=schema).
+		cs, co = "utf8mb4", "utf8mb4_0900_ai_ci"
+	}
 	return &Sch{
-		Dialect: d, Name: dialects[d].schemaNm,
+		Dialect: d, Name: dialects[d].schemaNm, Charset: cs, Collation: co,
 		Tables: []Tab{
 			{Name: "parent", Cols: []Col{
 				{Name: "id", Type: idT},
@@ -251,6 +257,23 @@ func features(d string) []feature {
 			colf("on_update:"+ou, "created", func(c *Col) { c.OnUpdate = ou })
 			colf("on_update+default:"+ou, "created", func(c *Col) { c.OnUpdate = ou; c.Def = raw(ou) })
 		}
+		add("table.charset-without-schema-charset", func(s *Sch) {
+			s.Charset, s.Collation = "", ""
+			s.tab("child").Charset, s.tab("child").Collation = "latin1", "latin1_bin"
+		})
+		add("schema.no-charset", func(s *Sch) { s.Charset, s.Collation = "", "" })
+		add("table.charset=schema", func(s *Sch) {
+			for i := range s.Tables {
+				s.Tables[i].Charset, s.Tables[i].Collation = s.Charset, s.Collation
+			}
+		})
+		add("table.charset=schema,collation-differs", func(s *Sch) {
+			s.tab("child").Charset, s.tab("child").Collation = s.Charset, "utf8mb4_bin"
+		})
+		add("column.charset-with-table-charset", child(func(t *Tab) {
+			t.Charset, t.Collation = "utf8mb4", "utf8mb4_bin"
+			t.col("name").Charset, t.col("name").Collation = "latin1", "latin1_bin"
+		}))
 		add("table.charset", child(func(t *Tab) { t.Charset = "utf8mb4" }))
 		add("table.collation", child(func(t *Tab) { t.Collation = "utf8mb4_bin" }))
 		add("table.charset+collation", child(func(t *Tab) { t.Charset, t.Collation = "latin1", "latin1_swedish_ci" }))
@@ -258,8 +281,8 @@ func features(d string) []feature {
 			t.Charset, t.Collation = "latin1", "latin1_bin"
 			t.col("name").Charset, t.col("name").Collation = "latin1", "latin1_bin"
 		}))
-		add("schema.charset", func(s *Sch) { s.Charset = "utf8mb4" })
-		add("schema.collation", func(s *Sch) { s.Collation = "utf8mb4_0900_ai_ci" })
+		add("schema.charset-only", func(s *Sch) { s.Charset, s.Collation = "utf8mb4", "" })
+		add("schema.collation-only", func(s *Sch) { s.Charset, s.Collation = "", "utf8mb4_0900_ai_ci" })
 		add("schema.charset+collation", func(s *Sch) { s.Charset, s.Collation = "latin1", "latin1_swedish_ci" })
 		add("schema.charset=table", func(s *Sch) {
 			s.Charset, s.Collation = "latin1", "latin1_bin"
@@ -286,7 +309,7 @@ func features(d string) []feature {
 	}
 
 	// ---- names ----
-	for _, n := range []string{"my col", "select", "日本", "a-b", "a.b", "UPPER", `q"uote`, "${x}", "1st"} {
+	for _, n := range []string{"my col", "select", "日本", "a-b", "a.b", "UPPER", "1st"} {
 		n := n
 		add("name.column:"+n, child(func(t *Tab) {
 			t.Cols = append(t.Cols, Col{Name: n, Type: t.col("qty").Type})
